@@ -97,3 +97,24 @@ def install_spec(E):
         # the effects performed so far on this path: a concrete list (paths have no loops over effects)
         return I.SList([I.STuple([I.C(ev[0])] + [I.T(t) for t in ev[1:]]) for ev in E.path.trace if ev[0] != 'yield'])
     E.models[SB.fs_effects] = m_fs_effects
+
+
+def install_order(E):
+    """spec-side predicates about sorted lists (spec/order.py)"""
+    import spec.order as SO
+
+    def m_sorted_by(E, args, kwargs):
+        t = E.lift(args[0])
+        key = args[1]
+        if not isinstance(key, I.C):
+            raise I.Unsupported('sorted_by with a symbolic key')
+        kname = key.v if key.v is not None else '<natural order>'
+        return E.bool_sv(z3.Function('IsSortedBy_' + kname, vals.VS, z3.BoolSort())(t))
+    E.models[SO.sorted_by] = m_sorted_by
+
+    def m_perm(E, args, kwargs):
+        a, b = E.lift(args[0]), E.lift(args[1])
+        if a.eq(b):
+            return I.C(True)
+        return E.bool_sv(z3.Function('PermutationOf', vals.VS, vals.VS, z3.BoolSort())(a, b))
+    E.models[SO.permutation_of] = m_perm
